@@ -77,26 +77,226 @@ def observe_regions(record):
     return out
 
 
+def loc_parts(location):
+    return [(int(p.start), int(p.end)) for p in location.parts]
+
+
+def sort_key(location):
+    """ (start, -length), the start of an origin-spanning location counted from the origin backwards """
+    parts = loc_parts(location)
+    length = sum(e - s for s, e in parts)
+    if len(parts) > 1:
+        return (parts[0][0] - parts[0][1], -length)
+    return (parts[0][0], -length)
+
+
 def oracle(record, areas_in_record):
     """ numbering and parent links on the implementation's state; returns a description of the first failure """
     regions = record.get_regions()
     for i, region in enumerate(regions):
         if region.get_region_number() != i + 1 or record.get_region(i + 1) is not region:
             return f"region {i} has number {region.get_region_number()}"
+    for i, a in enumerate(regions):
+        for b in regions[i + 1:]:
+            if parts_share_base(loc_parts(a.location), loc_parts(b.location)):
+                return "two regions of the record overlap"
     for a, b in zip(regions, regions[1:]):
-        if not a.location.end <= b.location.start:
-            return "regions overlap or are out of order"
+        if not sort_key(a.location) <= sort_key(b.location):
+            return "regions are out of location order"
+    for name, members, number_of, getter in (
+            ("sub-region", record.get_subregions(), lambda x: x.get_subregion_number(), record.get_subregion),
+            ("candidate cluster", record.get_candidate_clusters(), record.get_candidate_cluster_number, record.get_candidate_cluster),
+            ("protocluster", record.get_protoclusters(), lambda x: x.get_protocluster_number(), record.get_protocluster)):
+        for i, member in enumerate(members):
+            if number_of(member) != i + 1 or getter(i + 1) is not member:
+                return f"{name} at position {i} carries number {number_of(member)}"
+        for a, b in zip(members, members[1:]):
+            if not sort_key(a.location) <= sort_key(b.location):
+                return f"{name}s are out of location order"
+    current = list(record.get_subregions()) + list(record.get_candidate_clusters())
     for area in areas_in_record:
         if area.parent is not None and area.parent not in regions:
             return "an area's parent is a region that is no longer in the record"
-        if regions and area.parent is None:
+        if regions and area.parent is None and any(area is c for c in current):
             return "an area in the record belongs to no region"
+    for area in current:
+        if area.parent is not None and not any(area.parent is r for r in regions):
+            return "an area's parent is a region that is no longer in the record"
+    for proto in record.get_protoclusters():
+        if proto.parent is not None and not any(proto.parent is c for c in record.get_candidate_clusters()):
+            return "a protocluster's parent is a candidate cluster that is no longer in the record"
     for cds in record.get_cds_features():
         if cds.region is not None and cds.region not in regions:
             return f"gene {cds.get_name()} links to a region that is no longer in the record"
         if cds.region is not None and not cds.is_contained_by(cds.region):
             return f"gene {cds.get_name()} is linked to a region that does not contain it"
     return None
+
+
+# ---------------------------------------------------------------- circular records (fn 3, fn 4)
+
+def enc_loc(location):
+    """ Biopython / secmet location -> flat [nparts, (start, end, strand)*]; strand None is 2 """
+    out = [len(location.parts)]
+    for part in location.parts:
+        out += [int(part.start), int(part.end), 2 if part.strand is None else int(part.strand)]
+    return out
+
+
+def make_ring_area(kind, s, e, n):
+    """ s > e means [s, n) + [0, e) """
+    from antismash.common.secmet.test.helpers import DummySubRegion, DummyCandidateCluster, DummyProtocluster
+    if kind == "sub":
+        if s == e:                                           # the whole ring, starting at s
+            from antismash.common.secmet.locations import CompoundLocation, FeatureLocation
+            return DummySubRegion(location=CompoundLocation([FeatureLocation(s, n, 1), FeatureLocation(0, e, 1)]))
+        return DummySubRegion(s, e, record_length=n)
+    proto = DummyProtocluster(start=s, end=e, core_start=s, core_end=e, record_length=n)
+    if s > e:
+        return DummyCandidateCluster([proto], circular_wrap_point=n)
+    return DummyCandidateCluster([proto])
+
+
+def gen_ring_areas(rng, force_span=None):
+    """ layouts on a ring: 1-7 areas, usually with one or more origin-spanning ones, others placed
+        relative to the ends of the spanning area (chained into its upper part, its lower part, nested in
+        either, touching, one base apart) or anywhere """
+    n = rng.choice([60, 100, 300, 1000])
+    k = rng.choice([1, 2, 3, 3, 4, 4, 5, 6, 7])
+    areas = []
+    spans = rng.choice([0, 1, 1, 1, 2]) if force_span is None else force_span
+    for _ in range(spans):
+        s = rng.randrange(n // 2, n)
+        e = rng.randrange(1, min(s, n // 2) + 1)
+        if rng.random() < 0.05:
+            e = s                                            # covers the whole ring
+        areas.append((s, e))
+    anchors = [x for a in areas for x in a] or [n // 3, 2 * n // 3]
+    while len(areas) < max(k, spans):
+        r = rng.random()
+        if r < 0.55:
+            a = rng.choice(anchors) + rng.choice([-12, -5, -1, 0, 1, 5, 12])
+            s = max(0, min(n - 1, a - rng.choice([0, 1, 3, 10, 30])))
+            e = max(s + 1, min(n, a + rng.choice([0, 1, 3, 10, 30])))
+        elif r < 0.65:
+            s, e = rng.choice([(0, rng.randrange(1, n // 3)), (rng.randrange(2 * n // 3, n - 1), n)])
+        elif r < 0.68 and not any(x >= y for x, y in areas):
+            s, e = 0, n                                      # whole record (only without spanning areas, see notes)
+        else:
+            s = rng.randrange(0, n - 1)
+            e = min(n, s + rng.choice([1, 2, 5, 10, 40, n // 4]))
+        if (s, e) == (0, n) and any(x >= y for x, y in areas):
+            continue     # [0, n) next to an origin-spanning area: CDSCollection.__lt__ holds both ways round (see notes)
+        if (s, e) not in areas or rng.random() < 0.3:
+            areas.append((s, e))
+            anchors += [s, e]
+    rng.shuffle(areas)
+    return n, areas
+
+
+def ring_parts(area, n):
+    s, e = area
+    return [(s, e)] if s < e else [(s, n), (0, e)]
+
+
+def ring_kinds(rng, areas):
+    """ an area written (s, s) is the whole ring from s: only built as a sub-region """
+    return ["sub" if s == e else rng.choice(["sub", "sub", "cand"]) for s, e in areas]
+
+
+def parts_share_base(pa, pb):
+    return any(a0 < b1 and b0 < a1 for a0, a1 in pa for b0, b1 in pb)
+
+
+def ring_components(areas, n):
+    """ independent oracle: the partition of area indexes into connected components of 'share a base' """
+    parts = [ring_parts(a, n) for a in areas]
+    parent = list(range(len(areas)))
+
+    def find(x):
+        while parent[x] != x:
+            x = parent[x]
+        return x
+    for a in range(len(areas)):
+        for b in range(a + 1, len(areas)):
+            if parts_share_base(parts[a], parts[b]):
+                parent[find(a)] = find(b)
+    comps = {}
+    for i in range(len(areas)):
+        comps.setdefault(find(i), []).append(i)
+    return sorted(sorted(c) for c in comps.values())
+
+
+def merged(intervals):
+    """ union of half-open intervals as a sorted list of maximal intervals """
+    out = []
+    for s, e in sorted(intervals):
+        if out and s <= out[-1][1]:
+            out[-1][1] = max(out[-1][1], e)
+        else:
+            out.append([s, e])
+    return out
+
+
+def ring_spec(areas, n, got):
+    """ the clauses of C06 on the implementation's outcome `got` (None = create_regions raised, else a list of
+        (parts, cand ids, sub ids)); returns None or the first clause that fails """
+    if got is None:
+        return "region creation did not succeed"
+    comps = ring_components(areas, n)
+    groups = sorted(sorted(c + s) for _, c, s in got)
+    flat = sorted(x for g in groups for x in g)
+    if flat != list(range(len(areas))):
+        return "an area is in no region or in more than one"
+    if groups != comps:
+        return "the regions' member sets are not the connected components of the overlapping areas"
+    for i, (pa, _, _) in enumerate(got):
+        for pb, _, _ in got[i + 1:]:
+            if parts_share_base(pa, pb):
+                return "two regions overlap"
+    for parts, cands, subs in got:
+        if merged([x for m in cands + subs for x in ring_parts(areas[m], n)]) != merged(parts):
+            return "a region's location is not the span of its areas"
+    return None
+
+
+def observe_ring(record, index_of):
+    out = []
+    for region in record.get_regions():
+        parts = [(int(p.start), int(p.end)) for p in region.location.parts]
+        out.append((parts, [index_of[id(c)] for c in region.candidate_clusters],
+                    [index_of[id(s)] for s in region.subregions], enc_loc(region.location)))
+    return out
+
+
+def enc_regions(observed):
+    out = [0, len(observed)]
+    for _parts, cands, subs, eloc in observed:
+        out += eloc + [len(cands)] + cands + [len(subs)] + subs
+    return out
+
+
+def ring_case(n, circular, areas, kinds, genes=()):
+    """ builds the real record, runs create_regions; -> (flat case, implementation output, observed or None, record, objs) """
+    record = build_record(n, circular, sorted(genes))
+    objs, index_of = [], {}
+    flat = [PROP, 3, n, 1 if circular else 0, len(areas)]
+    for i, ((s, e), kind) in enumerate(zip(areas, kinds)):
+        obj = make_ring_area(kind, s, e, n)
+        index_of[id(obj)] = i
+        objs.append(obj)
+        flat += [1 if kind == "cand" else 0] + enc_loc(obj.location)
+        if kind == "sub":
+            record.add_subregion(obj)
+        else:
+            record.add_protocluster(obj.protoclusters[0])
+            record.add_candidate_cluster(obj)
+    try:
+        record.create_regions()
+    except Exception as exc:  # pylint: disable=broad-except
+        return flat, [1, err_code(exc)], None, record, objs
+    observed = observe_ring(record, index_of)
+    return flat, enc_regions(observed), observed, record, objs
 
 
 RULE = ("records of 300-5000 bases (linear, and circular without origin-spanning areas) with 1-8 areas (sub-regions and single-"
@@ -230,28 +430,413 @@ def run(chk):
         impl_outs.append(out)
         chk.count("numbering_history")
         chk.note_case(flat, len(members) >= 2, {"step": "numbering", "ops": ops, "implementation": out} if rng.random() < 0.01 else None)
+    pending = run_rings(chk, rng, 2 * total, cases, impl_outs)
+    if chk.tier == "thorough":
+        pending += run_rings_exhaustive(chk, cases, impl_outs)
+    pending_add = run_add_region(chk, rng, total, cases, impl_outs)
+    run_links(chk, rng, total // 2, cases, impl_outs)
     model_outs = common.correspondence(chk, cases, impl_outs,
                                        describe=lambda flat: {"function": "Record.create_regions", "length": flat[2], "areas": flat[4:]})
+    decide_rings(chk, pending, model_outs)
+    decide_add_region(chk, pending_add, model_outs)
     chk.crosscheck_vm(cases, model_outs)
     known_findings(chk)
     return chk.finish(RULE)
 
 
+
+def known_classes():
+    return {f["class"] for f in common.load_known_findings("C06") if f["status"] == "known"}
+
+
+def ring_genes(rng, n, areas):
+    """ small genes that neither overlap one another nor cross the origin (C08's recorded classes are avoided) """
+    genes, pos = [], rng.randrange(0, 5)
+    anchors = sorted({x for a in areas for x in a})
+    for _ in range(rng.choice([0, 0, 3, 6])):
+        if anchors and rng.random() < 0.6:
+            pos = max(pos, rng.choice(anchors) + rng.randint(-6, 2))
+        end = pos + rng.choice([3, 6])
+        if end > n:
+            break
+        genes.append((pos, end))
+        pos = end + rng.randrange(0, n // 6 + 1)
+    return genes
+
+
+def run_rings(chk, rng, total, cases, impl_outs):
+    """ fn 3: real circular (and a few linear) records, areas incl. origin-spanning ones added in supply order,
+        create_regions, then a clear / re-create step; every outcome is judged by the independent ring oracle and
+        compared with the model.  Returns the verdicts that wait for the model's answer. """
+    pending = []
+
+    def note(n, circular, areas, kinds, flat, out, observed, label):
+        verdict = ring_spec(areas, n, None if observed is None else [(p, c, s) for p, c, s, _ in observed])
+        cases.append(flat)
+        impl_outs.append(out)
+        pending.append({"index": len(cases) - 1, "n": n, "circular": circular, "areas": list(areas), "kinds": list(kinds),
+                        "verdict": verdict, "observed": observed, "step": label, "impl": out})
+        chk.count("ring_" + label)
+        spanning = sum(1 for s, e in areas if s >= e)
+        chk.count(f"ring_spanning_areas_{min(spanning, 2)}")
+        chk.note_case(flat, observed is not None and any(len(c) + len(s) >= 2 for _, c, s, _ in observed),
+                      {"step": "ring " + label, "length": n, "areas": areas, "implementation": out} if rng.random() < 0.002 else None)
+
+    for _ in range(total):
+        n, areas = gen_ring_areas(rng)
+        circular = True
+        if not any(s >= e for s, e in areas) and rng.random() < 0.3:
+            circular = False
+        kinds = ring_kinds(rng, areas)
+        genes = ring_genes(rng, n, areas)
+        try:
+            flat, out, observed, record, objs = ring_case(n, circular, areas, kinds, genes)
+        except Exception as exc:  # pylint: disable=broad-except
+            chk.violation("broken-correspondence", f"building a ring record failed: {exc!r}",
+                          {"theorem_or_correspondence": "harness (ring record construction)", "input": {"length": n, "areas": areas, "kinds": kinds}})
+            continue
+        note(n, circular, areas, kinds, flat, out, observed, "create")
+        if observed is None:
+            continue
+        bad = oracle(record, objs)
+        step = rng.choice(["recreate", "clear_subregions", "clear_candidate_clusters", "add_then_recreate", "none"])
+        keep = list(range(len(areas)))
+        if not bad and step != "none":
+            error = None
+            try:
+                if step == "recreate":
+                    record.clear_regions()
+                    record.create_regions()
+                elif step == "clear_subregions":
+                    keep = [i for i in keep if kinds[i] != "sub"]
+                    record.clear_subregions()
+                elif step == "clear_candidate_clusters":
+                    keep = [i for i in keep if kinds[i] != "cand"]
+                    record.clear_candidate_clusters()
+                else:
+                    s = rng.randrange(0, n - 1)
+                    extra = (s, min(n, s + rng.choice([1, 5, 30])))
+                    obj = make_ring_area("sub", extra[0], extra[1], n)
+                    record.add_subregion(obj)
+                    objs.append(obj)
+                    areas = areas + [extra]
+                    kinds = kinds + ["sub"]
+                    keep.append(len(areas) - 1)
+                    record.clear_regions()
+                    record.create_regions()
+            except Exception as exc:  # pylint: disable=broad-except
+                error = exc
+            cur_areas = [areas[i] for i in keep]
+            cur_kinds = [kinds[i] for i in keep]
+            cur_objs = [objs[i] for i in keep]
+            flat2 = [PROP, 3, n, 1 if circular else 0, len(cur_areas)]
+            for obj, kind in zip(cur_objs, cur_kinds):
+                flat2 += [1 if kind == "cand" else 0] + enc_loc(obj.location)
+            if error is not None:
+                note(n, circular, cur_areas, cur_kinds, flat2, [1, err_code(error)], None, step)
+                continue
+            if not cur_areas:
+                if record.get_regions():
+                    bad = "regions remain although every area was cleared"
+            else:
+                observed2 = observe_ring(record, {id(o): i for i, o in enumerate(cur_objs)})
+                note(n, circular, cur_areas, cur_kinds, flat2, enc_regions(observed2), observed2, step)
+            bad = bad or oracle(record, objs)
+        if bad:
+            chk.violation("counterexample", f"record state after {step if step != 'none' else 'create'}: {bad}",
+                          {"theorem_or_correspondence": "C06_numbering_inv / C06_no_stale_parents (implementation-side oracle)",
+                           "input": {"length": n, "circular": circular, "areas_in_supply_order": areas, "kinds": kinds,
+                                     "genes": genes, "history": ["add areas", "create_regions", step]},
+                           "failure": bad})
+    return pending
+
+
+
+def run_rings_exhaustive(chk, cases, impl_outs, n=6):
+    """ thorough tier: every multiset of 1-3 sub-regions on a circular record of 6 bases (all arcs, origin-spanning
+        ones included; [0, 6) never together with an origin-spanning arc), in one supply order and its reverse """
+    import itertools
+    arcs = [(s, e) for s in range(n) for e in range(s + 1, n + 1)] + [(s, e) for s in range(2, n) for e in range(1, s + 1)]
+    pending = []
+    for k in (1, 2, 3):
+        for combo in itertools.combinations_with_replacement(arcs, k):
+            if (0, n) in combo and any(s >= e for s, e in combo):
+                continue
+            for areas in {combo, tuple(reversed(combo))}:
+                areas = list(areas)
+                kinds = ["sub"] * len(areas)
+                flat, out, observed, _record, _objs = ring_case(n, True, areas, kinds)
+                verdict = ring_spec(areas, n, None if observed is None else [(p, c, s) for p, c, s, _ in observed])
+                cases.append(flat)
+                impl_outs.append(out)
+                pending.append({"index": len(cases) - 1, "n": n, "circular": True, "areas": areas, "kinds": kinds,
+                                "verdict": verdict, "observed": observed, "step": "exhaustive", "impl": out})
+                chk.count("ring_exhaustive_n6")
+                chk.note_case(flat, len(areas) >= 2)
+    return pending
+
+
+def ring_class(item):
+    """ which recorded class a failing outcome belongs to (None: none) """
+    if not any(s >= e for s, e in item["areas"]):
+        return None
+    if item["observed"] is None:
+        return "origin_spanning_area"
+    n = item["n"]
+    # a region is the whole record although no connected component of the areas covers the whole ring
+    whole_component = any(merged([x for m in comp for x in ring_parts(item["areas"][m], n)]) == [[0, n]]
+                          for comp in ring_components(item["areas"], n))
+    if not whole_component and any(parts == [(0, n)] for parts, _, _, _ in item["observed"]):
+        return "origin_spanning_long_arc"
+    return None
+
+
+def decide_rings(chk, pending, model_outs):
+    known = known_classes()
+    for item in pending:
+        if item["verdict"] is None:
+            continue
+        index = item["index"]
+        cls = ring_class(item)
+        if cls is not None and cls in known and model_outs[index] == item["impl"]:
+            chk.count("known_class_" + cls)
+            continue
+        chk.violation("counterexample", "create_regions: " + item["verdict"],
+                      {"theorem_or_correspondence": "C06_components_ring (independent oracle on the implementation's outcome)",
+                       "input": {"length": item["n"], "circular": item["circular"], "areas_in_supply_order": item["areas"],
+                                 "kinds": item["kinds"], "step": item["step"]},
+                       "implementation": "raised" if item["observed"] is None else [(p, c, s) for p, c, s, _ in item["observed"]],
+                       "expected_components": ring_components(item["areas"], item["n"]),
+                       "model": model_outs[index], "class_of_failure": cls})
+
+
+
+def run_add_region(chk, rng, total, cases, impl_outs):
+    """ fn 4: histories of Record.add_region(Region(subregions=[x])) on linear and circular records; every call is
+        either accepted or refused with ValueError.  Independent oracle: refused iff the new region shares a base
+        with a region of the record; the list stays in location order and numbered 1..n. """
+    from antismash.common.secmet.features import Region
+    pending = []
+    for _ in range(total):
+        n = rng.choice([100, 1000])
+        circular = rng.random() < 0.6
+        news = []
+        if circular and rng.random() < 0.5:
+            news.append((rng.randrange(n // 2, n), rng.randrange(1, n // 3)))
+        for _ in range(rng.choice([2, 3, 4, 6, 8])):
+            if circular and rng.random() < 0.15:
+                s = rng.randrange(n // 2, n)
+                news.append((s, rng.randrange(1, min(s, n // 3) + 1)))
+                continue
+            if news and rng.random() < 0.5:
+                a = rng.choice([x for pair in news for x in pair]) + rng.choice([-10, -1, 0, 1, 10])
+                s = max(0, min(n - 1, a - rng.choice([0, 1, 5, 20])))
+                e = max(s + 1, min(n, a + rng.choice([0, 1, 5, 20])))
+            else:
+                s = rng.randrange(0, n - 1)
+                e = min(n, s + rng.choice([1, 5, 20, n // 5]))
+            news.append((s, e))
+        if circular and rng.random() < 0.5:
+            rng.shuffle(news)
+        record = build_record(n, circular, [])
+        flat = [PROP, 4, n, len(news)]
+        flags, steps, index_of = [], [], {}
+        for i, (s, e) in enumerate(news):
+            sub = make_ring_area("sub", s, e, n)
+            index_of[id(sub)] = i
+            flat += [0] + enc_loc(sub.location)
+            new = ring_parts((s, e), n)
+            expected_refusal = any(parts_share_base(new, loc_parts(r.location)) for r in record.get_regions())
+            try:
+                record.add_region(Region(subregions=[sub]))
+                flags.append(0)
+            except Exception as exc:  # pylint: disable=broad-except
+                flags.append(err_code(exc))
+            failure = None
+            if (flags[-1] != 0) != expected_refusal or flags[-1] not in (0, 1):
+                failure = ("a region sharing bases with a region of the record was accepted" if expected_refusal
+                           else "a region sharing no base with any region of the record was refused")
+            else:
+                regions = record.get_regions()
+                for pos, region in enumerate(regions):
+                    if region.get_region_number() != pos + 1 or record.get_region(pos + 1) is not region:
+                        failure = "region numbers do not identify the regions"
+                if any(not sort_key(a.location) <= sort_key(b.location) for a, b in zip(regions, regions[1:])):
+                    failure = "regions are out of location order"
+            steps.append({"new": (s, e), "accepted": flags[-1] == 0, "failure": failure,
+                          "in_class": failure is not None and expected_refusal and s >= e})
+        observed = observe_ring(record, index_of)
+        out = [len(flags)] + flags + enc_regions(observed)[1:]
+        cases.append(flat)
+        impl_outs.append(out)
+        pending.append({"index": len(cases) - 1, "n": n, "circular": circular, "news": news, "steps": steps, "impl": out})
+        chk.count("add_region_history")
+        chk.count("add_region_refusals", sum(1 for f in flags if f))
+        chk.note_case(flat, any(flags), {"step": "add_region history", "length": n, "circular": circular, "new_regions": news,
+                                        "implementation": out} if rng.random() < 0.002 else None)
+    return pending
+
+
+def decide_add_region(chk, pending, model_outs):
+    known = known_classes()
+    for item in pending:
+        failing = [st for st in item["steps"] if st["failure"]]
+        if not failing:
+            continue
+        if all(st["in_class"] for st in failing) and "add_region_scan_stops_early" in known \
+                and model_outs[item["index"]] == item["impl"]:
+            chk.count("known_class_add_region_scan_stops_early")
+            continue
+        first = [st for st in failing if not st["in_class"]] or failing
+        chk.violation("counterexample", "add_region: " + first[0]["failure"],
+                      {"theorem_or_correspondence": "C06_add_region_rejects_overlap (independent oracle on the implementation's outcome)",
+                       "input": {"length": item["n"], "circular": item["circular"], "add_region_calls": item["news"]},
+                       "steps": item["steps"], "implementation": item["impl"], "model": model_outs[item["index"]]})
+
+
+
+def run_links(chk, rng, total, cases, impl_outs):
+    """ fn 5: histories of add_protocluster / add_candidate_cluster / add_subregion / create_regions / clear_* on a real
+        Record; afterwards every protocluster's parent, every area's parent and every gene's region link is compared
+        with the link model (which is told what create_regions grouped, see Model.v) """
+    from antismash.common.secmet.test.helpers import DummyProtocluster, DummyCandidateCluster
+    for _ in range(total):
+        n = 400
+        circular = rng.random() < 0.5
+        genes, pos = [], rng.randrange(0, 20)
+        while pos + 9 <= n and len(genes) < 12:
+            genes.append((pos, pos + rng.choice([3, 6, 9])))
+            pos = genes[-1][1] + rng.randrange(0, 60)
+        record = build_record(n, circular, genes)
+        gene_id = {cds.get_name(): i for i, cds in enumerate(record.get_cds_features())}
+        ids, protos, areas, ops = {}, [], [], []
+
+        def grouping():
+            out = [len(record.get_regions())]
+            for region in record.get_regions():
+                members = [ids[id(a)] for a in list(region.candidate_clusters) + list(region.subregions)]
+                cds = [gene_id[c.get_name()] for c in region.cds_children]
+                out += [len(members)] + members + [len(cds)] + cds
+            return out
+
+        def random_span():
+            if circular and rng.random() < 0.15:
+                s = rng.randrange(n // 2, n)
+                return s, rng.randrange(1, n // 4)
+            s = rng.randrange(0, n - 1)
+            return s, min(n, s + rng.choice([1, 10, 40, 90]))
+        try:
+            for _ in range(rng.choice([2, 4, 6, 9, 12])):
+                kind = rng.choice(["sub", "sub", "cand", "cand", "create", "create", "clear_regions", "clear_cands", "clear_subs",
+                                   "clear_protos"])
+                if kind == "sub":
+                    s, e = random_span()
+                    obj = make_ring_area("sub", s, e, n)
+                    ids[id(obj)] = 300 + len(areas)
+                    areas.append(obj)
+                    record.add_subregion(obj)
+                    ops.append([2, ids[id(obj)]])
+                elif kind == "cand":
+                    s, e = random_span()
+                    children = [DummyProtocluster(start=s, end=e, core_start=s, core_end=e, record_length=n)]
+                    if s < e and e - s > 4 and rng.random() < 0.4:
+                        mid = rng.randrange(s + 1, e)
+                        children = [DummyProtocluster(start=s, end=mid + 1, core_start=s, core_end=mid + 1),
+                                    DummyProtocluster(start=mid, end=e, core_start=mid, core_end=e)]
+                    for child in children:
+                        ids[id(child)] = 100 + len(protos)
+                        protos.append(child)
+                        record.add_protocluster(child)
+                        ops.append([0, ids[id(child)]])
+                    obj = DummyCandidateCluster(children, circular_wrap_point=n) if s > e else DummyCandidateCluster(children)
+                    ids[id(obj)] = 200 + len(areas)
+                    areas.append(obj)
+                    record.add_candidate_cluster(obj)
+                    ops.append([1, ids[id(obj)], len(children)] + [ids[id(c)] for c in children])
+                elif kind == "create":
+                    if record.get_regions():
+                        continue
+                    record.create_regions()
+                    ops.append([3] + grouping())
+                elif kind == "clear_regions":
+                    record.clear_regions()
+                    ops.append([4])
+                elif kind == "clear_cands":
+                    record.clear_candidate_clusters()
+                    ops.append([5] + grouping())
+                elif kind == "clear_subs":
+                    record.clear_subregions()
+                    ops.append([6] + grouping())
+                else:
+                    record.clear_protoclusters()
+                    ops.append([7] + grouping())
+        except Exception as exc:  # pylint: disable=broad-except
+            chk.count("link_history_discarded_" + type(exc).__name__)     # a create failed half way (recorded classes)
+            continue
+        regions = record.get_regions()
+        cands = record.get_candidate_clusters()
+
+        def region_name(link):
+            if link is None:
+                return -1
+            if not any(link is r for r in regions):
+                return -2
+            return min(ids[id(a)] for a in list(link.candidate_clusters) + list(link.subregions))
+
+        out = []
+        for proto in protos:
+            out.append(-1 if proto.parent is None else ids[id(proto.parent)] if any(proto.parent is c for c in cands) else -2)
+        out += [region_name(area.parent) for area in areas]
+        out += [region_name(cds.region) for cds in record.get_cds_features()]
+        flat = [PROP, 5, len(ops)] + [x for op in ops for x in op]
+        flat += [len(protos)] + [ids[id(x)] for x in protos] + [len(areas)] + [ids[id(x)] for x in areas]
+        flat += [len(genes)] + list(range(len(genes)))
+        if -2 in out:
+            chk.violation("counterexample", "a parent / region link points to a feature that is no longer in the record",
+                          {"theorem_or_correspondence": "C06_no_stale_parents / Record.clear_*", "input": {"length": n, "circular": circular, "ops": ops},
+                           "links": out, "flat": flat})
+        cases.append(flat)
+        impl_outs.append(out)
+        chk.count("link_history")
+        chk.note_case(flat, any(op[0] >= 4 for op in ops) and any(x >= 0 for x in out),
+                      {"step": "link history", "ops": ops, "implementation": out} if rng.random() < 0.003 else None)
+
+
 def known_findings(chk):
     """ recorded, unrepaired defects: printed only while the stored witness still reproduces """
+    from antismash.common.secmet.features import Region
     from antismash.common.secmet.test.helpers import DummyRecord, DummySubRegion
     for finding in common.load_known_findings("C06"):
-        if finding["status"] != "known" or finding["class"] != "origin_spanning_area":
+        if finding["status"] != "known":
             continue
         w = finding["witness"]
-        record = DummyRecord(seq="A" * w["length"], circular=w["circular"])
+        n = w["length"]
+        record = DummyRecord(seq="A" * n, circular=w["circular"])
         try:
-            for s, e in w["subregions"]:
-                record.add_subregion(DummySubRegion(s, e, record_length=w["length"]))
-            record.create_regions()
-        except ValueError as exc:
-            if "regions cannot overlap" in str(exc):
-                chk.known(finding["what_fails"])
+            if finding["class"] == "origin_spanning_area":
+                try:
+                    for s, e in w["subregions"]:
+                        record.add_subregion(DummySubRegion(s, e, record_length=n))
+                    record.create_regions()
+                except ValueError as exc:
+                    if "regions cannot overlap" in str(exc):
+                        chk.known(finding["what_fails"])
+            elif finding["class"] == "origin_spanning_long_arc":
+                for s, e in w["subregions"]:
+                    record.add_subregion(DummySubRegion(s, e, record_length=n))
+                record.create_regions()
+                if any(loc_parts(r.location) == [(0, n)] for r in record.get_regions()):
+                    chk.known(finding["what_fails"])
+            elif finding["class"] == "add_region_scan_stops_early":
+                for s, e in w["regions"]:
+                    record.add_region(Region(subregions=[DummySubRegion(s, e, record_length=n)]))
+                record.add_region(Region(subregions=[DummySubRegion(*w["new_region"], record_length=n)]))
+                regions = record.get_regions()
+                if any(parts_share_base(loc_parts(a.location), loc_parts(b.location))
+                       for i, a in enumerate(regions) for b in regions[i + 1:]):
+                    chk.known(finding["what_fails"])
+        except Exception:  # pylint: disable=broad-except
+            pass          # the witness no longer behaves as recorded: nothing is printed, nothing is suppressed by this
 
 
 def replay(chk, path):
@@ -259,6 +844,16 @@ def replay(chk, path):
     doc = json.load(open(path))
     if "flat" in doc:
         print("model:", common.run_driver([doc["flat"]])[0], "recorded implementation:", doc.get("implementation"))
-    else:
-        print(doc.get("input"), doc.get("failure"))
+        return 0
+    inp = doc.get("input") or {}
+    if "areas_in_supply_order" in inp and "kinds" in inp and isinstance(inp["kinds"], list):
+        areas = [tuple(a) for a in inp["areas_in_supply_order"]]
+        flat, out, observed, _record, _objs = ring_case(inp["length"], inp.get("circular", True), areas, inp["kinds"])
+        print("input:", inp)
+        print("implementation now:", "raised" if observed is None else [(p, c, s) for p, c, s, _ in observed], out)
+        print("model:", common.run_driver([flat])[0])
+        print("oracle:", ring_spec(areas, inp["length"], None if observed is None else [(p, c, s) for p, c, s, _ in observed]),
+              "expected components:", ring_components(areas, inp["length"]))
+        return 0
+    print(inp, doc.get("failure") or doc.get("steps"))
     return 0
